@@ -99,7 +99,9 @@ def check_injective(case, rec):
 
 
 CONFUSABLE = ['a', "a'", "a''", "'a'", "a'/'b", 'b', "a/b", "/", "'", "''", '', ' ', "'/'", "/'a'", "a'/'", "'/'a",
-              "g'/'c", 'g', 'c', "g/c", "é", "é", 'A', 'a ', ' a', '\x00', 'a\x00']
+              "g'/'c", 'g', 'c', "g/c", "é", "é", 'A', 'a ', ' a', '\x00', 'a\x00',
+              # line-ending look-alikes: CR LF, LF and CR are three different characters in a name
+              'g\r\nx', 'g\nx', 'g\rx', '\r\n', '\n', '\r', 'a\r\n', 'a\n']
 name_st = st.one_of(st.sampled_from(CONFUSABLE), st.text(alphabet=ALPHABET, max_size=5),
                     st.text(alphabet=st.characters(blacklist_categories=['Cs']), max_size=6))
 
